@@ -39,6 +39,9 @@ func replayValues(recs []NondetRec, m map[string]uint64) []string {
 }
 
 func (in *Interp) nondetBytes(n int) []*Term {
+	if in.conc != nil {
+		return in.concBytes(n)
+	}
 	ts := make([]*Term, n)
 	rec := NondetRec{Kind: "string"}
 	base := in.nvars
@@ -55,6 +58,9 @@ func (in *Interp) nondetBytes(n int) []*Term {
 
 func init() {
 	verifAPI["verifNondetBool"] = func(in *Interp, fn *ssa.Function, args []Value) Value {
+		if in.conc != nil {
+			return in.concScalar("bool", "b", 0, 0, 1)
+		}
 		v := in.newVar("b", 0)
 		in.nondets = append(in.nondets, NondetRec{Kind: "bool", Names: []string{v.name}})
 		return v
@@ -62,6 +68,9 @@ func init() {
 	rangeInt := func(w int, kind string) interceptFn {
 		return func(in *Interp, fn *ssa.Function, args []Value) Value {
 			lo, hi := args[0].(*Term), args[1].(*Term)
+			if in.conc != nil {
+				return in.concScalar(kind, "i", w, sext(lo.c, lo.w), sext(hi.c, hi.w))
+			}
 			if lo.isC && hi.isC && lo.c == hi.c {
 				in.nondets = append(in.nondets, NondetRec{Kind: "choice", Val: sext(lo.c, w)})
 				return lo
@@ -80,6 +89,9 @@ func init() {
 	verifAPI["verifNondetInt32"] = rangeInt(32, "int32")
 	verifAPI["verifNondetInt64"] = rangeInt(64, "int")
 	verifAPI["verifNondetByte"] = func(in *Interp, fn *ssa.Function, args []Value) Value {
+		if in.conc != nil {
+			return in.concScalar("byte", "y", 8, 0, 255)
+		}
 		v := in.newVar("y", 8)
 		in.nondets = append(in.nondets, NondetRec{Kind: "byte", Names: []string{v.name}, W: 9})
 		return v
@@ -131,6 +143,16 @@ func init() {
 		label := in.concStr(args[1])
 		in.asserts++
 		in.lem.noteAssert(label)
+		if in.conc != nil {
+			if !c.isC {
+				in.abort("symbolic assertion in concrete mode")
+			}
+			if c.c == 0 {
+				in.conc.failed = append(in.conc.failed, label)
+				panic(stopPath{"assertion failed"})
+			}
+			return nil
+		}
 		if c.isC {
 			if c.c == 0 {
 				in.reportViolation(label, nil)
@@ -145,6 +167,9 @@ func init() {
 			in.sol.Push()
 			in.sol.Assert(Not(c))
 			r := in.sol.Check()
+			if in.sol.record {
+				in.lem.noteCrossQuery(label, r, in.sol.Transcript())
+			}
 			if r == "sat" {
 				in.reportViolation(label, in.sol.Values(in.nondetNames()))
 			} else if r == "unknown" {
@@ -162,6 +187,9 @@ func init() {
 	}
 	verifAPI["verifCover"] = func(in *Interp, fn *ssa.Function, args []Value) Value {
 		in.lem.noteCover(in.concStr(args[0]))
+		if in.conc != nil {
+			in.conc.covers = append(in.conc.covers, in.concStr(args[0]))
+		}
 		return nil
 	}
 	verifAPI["verifParam"] = func(in *Interp, fn *ssa.Function, args []Value) Value {
